@@ -619,26 +619,34 @@ def _sweep_world(root, **kw):
     raise RuntimeError(f"harness: no sweep world with a non-empty mobile subset for {kw}")
 
 
-# full = every (entry, params, output on/off); the others: every (entry, params) without output files
+# (output files on/off too?, families or None = all): "full" worlds run every (entry, params, output on/off); the others
+# every (entry, params) of the named families without output files
+_TIME = ("dyn", "boo", "s2", "nematic", "vec", "cg")
 SWEEP_WORLDS = [
-    ("full", dict(d=2, N=9, T=3, K=2, origin="arbitrary", cell="ortho", variant="plain")),
-    ("full", dict(d=3, N=9, T=3, K=3, origin="zero", cell="ortho", variant="plain")),
-    ("params", dict(d=2, N=8, T=2, K=1, origin="centred", cell="tri", variant="lab-shift")),
-    ("params", dict(d=3, N=8, T=2, K=2, origin="sumzero", cell="tri", variant="lab-gap")),
-    ("pair", dict(d=3, N=8, T=2, K=4, origin="zero", cell="ortho", variant="plain")),
-    ("pair", dict(d=2, N=8, T=2, K=5, origin="zero", cell="ortho", variant="plain")),
-    ("pair", dict(d=2, N=8, T=2, K=1, origin="zero", cell="ortho", variant="plain")),
+    (True, None, dict(d=2, N=9, T=3, K=2, origin="arbitrary", cell="ortho", variant="plain")),
+    (True, None, dict(d=3, N=9, T=3, K=3, origin="zero", cell="ortho", variant="plain")),
+    (False, None, dict(d=2, N=8, T=2, K=1, origin="centred", cell="tri", variant="lab-shift")),
+    (False, None, dict(d=3, N=8, T=2, K=2, origin="sumzero", cell="tri", variant="lab-gap")),
+    (False, ("pair", "s2", "dyn", "neigh", "order", "hess"), dict(d=2, N=8, T=2, K=2, origin="zero", cell="ortho", variant="lab-zero")),
+    (False, ("pair",), dict(d=3, N=8, T=2, K=4, origin="zero", cell="ortho", variant="plain")),
+    (False, ("pair",), dict(d=2, N=8, T=2, K=5, origin="zero", cell="ortho", variant="plain")),
+    (False, ("pair",), dict(d=2, N=8, T=2, K=1, origin="zero", cell="ortho", variant="plain")),
+    (False, _TIME, dict(d=2, N=8, T=3, K=2, origin="zero", cell="ortho", variant="logtimes")),
+    (False, _TIME, dict(d=3, N=8, T=3, K=1, origin="arbitrary", cell="tri", variant="logtimes")),
+    (False, ("pair", "s2", "dyn", "neigh"), dict(d=3, N=8, T=3, K=2, origin="zero", cell="ortho", variant="perm-types")),
+    (False, ("pair", "s2", "dyn", "neigh", "order", "hess", "voro"), dict(d=2, N=8, T=2, K=2, origin="centred", cell="ortho", variant="int32-types")),
+    (False, ("pair", "neigh", "voro", "boo", "dyn", "order", "s2"), dict(d=3, N=8, T=2, K=2, origin="sumzero", cell="ortho", variant="noncontig")),
 ]
 
 
-def _sweep_calls(mode, w):
+def _sweep_calls(outs, fams, w):
     for name, fn in CATALOGUE.items():
         if ONLY and name not in ONLY:
             continue
-        if not eligible(fn, w) or (mode == "pair" and fn.fam != "pair"):
+        if not eligible(fn, w) or (fams is not None and fn.fam not in fams):
             continue
         for p in range(len(fn.P)):
-            for out in ((False, True) if (fn.has_out and mode == "full") else (False,)):
+            for out in ((False, True) if (fn.has_out and outs) else (False,)):
                 yield name, p, out
 
 
@@ -657,20 +665,20 @@ def replay_sweep(case):
 
 def gen_sweep(tier):
     """(a) every (entry, params, output on/off) of the catalogue once, in fixed small worlds (two ordinary ones, two with
-    unusual species labels, three for the 1-, 4- and 5-species methods), all through ONE set of live analysis objects per
-    world, with invariants (1), (3), (7) after every call;  (b) while that runs, a profiler hook records which public
+    unusual species labels, three for the 1-, 4- and 5-species methods, one or two per other off-domain variant for the
+    families it concerns), all through ONE set of live analysis objects per world, with invariants (1), (3), (7) after every call;  (b) while that runs, a profiler hook records which public
     callables of PyMatterSim are entered and with which flag values;  (c) the API inventory and the flag coverage are
     reported, and a flag of a catalogued routine that no entry varies is raised as a HARNESS error."""
     inv, broken = inventory()
     tracer = CallTracer(inv)
     root = tempfile.mkdtemp(prefix="sweep-", dir=os.getcwd())
     try:
-        for k, (mode, kw) in enumerate(SWEEP_WORLDS):
+        for k, (outs, fams, kw) in enumerate(SWEEP_WORLDS):
             with tracer:  # the harness constructs SingleSnapshot / Snapshots itself
                 w = _sweep_world(os.path.join(root, f"w{k}"), **kw)
             h = History(w)
             before = []
-            for name, p, out in _sweep_calls(mode, w):
+            for name, p, out in _sweep_calls(outs, fams, w):
                 case = {"world": dict(w.kw), "entry": name, "p": p, "out": out, "before": list(before)}
                 tracer.current = name
                 try:
